@@ -32,9 +32,13 @@ var Keys = []Key{
 	{"GET", "a.b/", "a.b", "/"},
 	{"POST", "/a", "", "/a"},
 	{"FOO", "/a", "", "/a"},
+	// more siblings under the node "/a" (children b, c, d and '/'): children slices with spare
+	// capacity and re-sorting on insertion
+	{"GET", "/ac", "", "/ac"},
+	{"GET", "/ad", "", "/ad"},
 }
 
-const NK = 6
+const NK = 8
 
 // Op kinds.
 const (
